@@ -69,6 +69,14 @@ def component(ctx, res, pred, n, tagrule):
                    rule="heap: 1..8 slots, rule window 1..5 with 0..2 context slots, 1..13 opcodes from {next, copy_next, insert, delete, put_copy, assoc, attr_set attach.to, attr_set_slot attach.to, attr_set other} accepted by the real loader; " + tagrule)
 
 
+def split_curok(m):
+    """the driver's shape mode prefixes its answer with curok=<0|1> (fontOK of Proofs/CursorShape.lean)"""
+    if m and m.startswith("curok="):
+        k, _, rest = m.partition(" ")
+        return k[6:], rest
+    return None, m
+
+
 def text_of(word, enc=32):
     cps = [ord(c) for c in word]
     return "".join("%08x" % c for c in cps) or "-", cps
@@ -245,7 +253,16 @@ def shape_stage(ctx, res, nfonts, ntexts, as_failure=False, gen_kw=None, fontgen
         for l, ml, i, m in zip(lines, mlines, impl, model):
             res.evaluations += 1
             res.distinct.add(ml)
+            curok, m = split_curok(m)
             iloop, _, ibody = i.partition(" | ") if i.startswith("loop=") else ("", "", i)
+            if curok is not None:
+                # the hypothesis of no_write_through_a_null_cursor (every rule's code passes the loader's cursor tests), evaluated by the
+                # model on this font: it must hold of every font the real loader accepted
+                res.count("shape:rule-code-passes-cursor-tests=" + curok)
+                if curok != "1" and not ibody.startswith("noface") and not i.startswith(("CRASH", "fault")):
+                    res.failures.append({"harness": "h_seg", "mode": "shape", "line": ml, "impl": ibody[:300], "model": (m or "")[:300], "exe_args": [], "tag": "cursor-hyp",
+                                         "font_hex": open(fonts[int(l.split("=")[1].split(",")[0])], "rb").read().hex(), "api_line": l,
+                                         "why": "the loader accepted a font whose rule code fails the cursor tests (_out_index/_out_length bookkeeping of fetch_opcode): the hypothesis of no_write_through_a_null_cursor is not met, the machine may write through a null slot"})
             pi = proj_dump(ibody)
             if i.startswith(("CRASH", "fault")):
                 res.failures.append({"harness": "h_seg", "mode": "shape", "line": ml, "impl": i[:300], "model": m, "why": "crash / sanitizer fault (or hang) in gr_make_seg on a synthesised font", "tag": "fault",
@@ -312,6 +329,11 @@ def replay_shape(obj):
         iloop, _, ibody = raw.partition(" | ") if raw.startswith("loop=") else ("", "", raw)
         out = proj_dump(ibody)
         m = lib.run_lines([lib.driver_path(), "shape"], [obj["line"]])[0]
+        curok, m = split_curok(m)
+        if curok is not None:
+            print("rule code passes the loader's cursor tests (model): %s" % curok)
+            if obj.get("tag") == "cursor-hyp":
+                return curok != "1" and not raw.startswith("noface")
         mm = re.match(r"trie=(\S*) (loop=\S+ passes=\S+ exceeded=\S+ )?(noid=\S+ )?(?:gidok=\S+ )?(.*)", m)
         if mm:
             print("loop  : impl %s | model %s" % (iloop, (mm.group(2) or "").strip()))
